@@ -302,6 +302,20 @@ func (c *c16ReadCase) line() string {
 	return fmt.Sprintf("sctp|%d|eof|%s|%s", c.maxMsg, strings.Join(its, ";"), strings.Join(sz, ","))
 }
 
+// replayLine is the model line plus the generator's ground truth (which messages the peer's heartbeat loop sent):
+// a message equal to the payload is data unless it is flagged here.
+func (c *c16ReadCase) replayLine() string {
+	var fl strings.Builder
+	for _, it := range c.items {
+		if it.hb {
+			fl.WriteByte('1')
+		} else {
+			fl.WriteByte('0')
+		}
+	}
+	return c.line() + "|heartbeats=" + fl.String()
+}
+
 type c16ReadOut struct {
 	data []byte
 	err  string
@@ -380,7 +394,7 @@ func c16CheckReads(out *vlib.Out, c *c16ReadCase, outs []c16ReadOut, useOracle b
 		return
 	}
 	out.Checked()
-	replay := c.line()
+	replay := c.replayLine()
 	var delivered []byte
 	type mark struct {
 		at  int
@@ -445,6 +459,21 @@ func c16CheckReads(out *vlib.Out, c *c16ReadCase, outs []c16ReadOut, useOracle b
 	case hbEqual && bytes.HasPrefix(withoutHbEqual, delivered):
 		target = withoutHbEqual
 	default:
+		if c.hbMode {
+			// where the reader's bytes leave the application's: is it a heartbeat that stands there?
+			p := 0
+			for p < len(delivered) && p < len(full) && delivered[p] == full[p] {
+				p++
+			}
+			rest, sentHb := delivered[p:], false
+			for _, it := range c.items {
+				sentHb = sentHb || it.hb
+			}
+			if sentHb && len(rest) > 0 && (bytes.HasPrefix(rest, c.hb) || bytes.HasPrefix(c.hb, rest)) {
+				fail("C16:heartbeat-surfaced-as-data", fmt.Sprintf("after %d application bytes the reader was handed the %d-byte keep-alive payload as data (reader got %d bytes, the peer's application messages are %d bytes)", p, len(c.hb), len(delivered), len(full)))
+				return
+			}
+		}
 		fail("C16:stream-bytes-differ", fmt.Sprintf("reader got %d bytes that are not the concatenation of the peer's %d message bytes", len(delivered), len(full)))
 		return
 	}
@@ -562,10 +591,24 @@ func c16ReadCorpus(out *vlib.Out) {
 		c16Pad(c, []int{3})
 		c16RunReadCase(out, c, true)
 	}
-	// a heartbeat that arrives with an error attached (correspondence only), an over-sized message, empty messages
-	c = &c16ReadCase{hbMode: true, maxMsg: 40, hb: hb, items: []c16Item{{mk(5, 1), "-", false}, {hb, "timeout", true}, {mk(6, 9), "-", false}}}
+	// a heartbeat whose read also reports a stream error (n > 0 and err together), at every position and with every
+	// error: it is a heartbeat all the same and never reaches the reader, whatever comes behind it
+	for _, e := range []string{"timeout", "other", "eof", "closed", "short"} {
+		for pos := 0; pos < 3; pos++ {
+			its := []c16Item{{mk(5, 1), "-", false}, {mk(6, 9), "-", false}}
+			its = append(its[:pos], append([]c16Item{{append([]byte(nil), hb...), e, true}}, its[pos:]...)...)
+			for _, pat := range [][]int{{4}, {64}, {1, 100}} {
+				c = &c16ReadCase{hbMode: true, maxMsg: 40, hb: hb, items: its}
+				c16Pad(c, pat)
+				c16RunReadCase(out, c, true)
+			}
+		}
+	}
+	out.Count("corpus:heartbeat-with-error")
+	// … and the error alone behind a heartbeat (n == 0)
+	c = &c16ReadCase{hbMode: true, maxMsg: 40, hb: hb, items: []c16Item{{mk(5, 1), "-", false}, {hb, "-", true}, {nil, "other", false}, {mk(6, 9), "-", false}}}
 	c16Pad(c, []int{4})
-	c16RunReadCase(out, c, false)
+	c16RunReadCase(out, c, true)
 	for _, mode := range []bool{false, true} {
 		c = &c16ReadCase{hbMode: mode, maxMsg: 40, hb: hb, items: []c16Item{{mk(5, 1), "-", false}, {nil, "-", false}, {mk(41, 3), "-", false}, {mk(40, 7), "-", false}}}
 		c16Pad(c, []int{1, 40, 41, 0, 100})
@@ -635,7 +678,7 @@ func c16ReadExhaustive(out *vlib.Out, L int) {
 			opts = append(opts, opt{b, false, e})
 		}
 	}
-	opts = append(opts, opt{hb, true, "-"}, opt{[]byte{0xEE}, false, "-"})
+	opts = append(opts, opt{hb, true, "-"}, opt{hb, true, "other"}, opt{[]byte{0xEE}, false, "-"})
 	patterns := [][]int{{1}, {2}, {3}, {4}, {1, 3}, {0, 2}, {4, 1}, {2, 5}}
 	var rec func(items []c16Item, tagBase byte)
 	rec = func(items []c16Item, tagBase byte) {
@@ -720,8 +763,13 @@ func c16ReadRandom(out *vlib.Out, r *vlib.Rand, n int) {
 			if r.Chance(1, errDen) {
 				it.err = []string{"other", "timeout", "eof", "closed", "short"}[r.Intn(5)]
 				out.Count("item:with-error")
-				if mode && bytes.Equal(it.b, hb) {
-					useOracle = false // an error attached to a heartbeat is ignored by the loop: correspondence only
+				if it.hb {
+					out.Count("item:heartbeat-with-error")
+				}
+				if mode && !it.hb && bytes.Equal(it.b, hb) {
+					// application data equal to the payload is the recorded finding; with an error attached the loop
+					// also loses the error and reads on: the oracle's ground truth ends the stream there: correspondence only
+					useOracle = false
 				}
 			}
 			c.items = append(c.items, it)
